@@ -9,6 +9,10 @@ use serde::{Deserialize, Serialize};
 #[derive(Clone, Debug, Serialize, Deserialize, PartialEq, Eq, Hash)]
 pub enum CellKind {
     Empty,
+    /// markup that renders nothing: a spaces-only <pre>, an empty paragraph / inline element, a
+    /// comment, an image without alt text
+    #[serde(alias = "Blank")]
+    Blank(u8),
     Short,
     Long(Vec<u8>),
     Multi(Vec<u8>),
@@ -79,6 +83,20 @@ pub fn table_opts() -> BoxedStrategy<TableOpts> {
     .boxed()
 }
 
+/// Cell contents that render nothing.
+pub const BLANKS: &[&str] = &["<pre> </pre>", "<p></p>", "<span></span>", "<!-- c -->", "<img src=\"x\">", "<pre>\n</pre>", "<div><span></span></div>"];
+
+impl CellKind {
+    /// no rendered content at all
+    pub fn renders_nothing(&self) -> bool {
+        matches!(self, CellKind::Empty | CellKind::Blank(_))
+    }
+    /// a blank <pre>: renders nothing but has a size estimate, so its column is allocated space
+    pub fn is_blank_pre(&self) -> bool {
+        matches!(self, CellKind::Blank(k) if BLANKS[*k as usize % BLANKS.len()].starts_with("<pre"))
+    }
+}
+
 fn txt(words: &[u8], cls: Cls) -> Inline {
     Inline::Text(Txt { words: words.iter().map(|w| (*w).max(1)).collect(), lead: false, trail: false, cls })
 }
@@ -97,6 +115,12 @@ impl RTable {
     pub fn has_nested(&self) -> bool {
         self.rows.iter().flatten().any(|c| matches!(c.kind, CellKind::Nested(_) | CellKind::Mixed(_)))
     }
+    pub fn has_blank_pre(&self) -> bool {
+        self.rows.iter().flatten().any(|c| match &c.kind {
+            CellKind::Nested(t) | CellKind::Mixed(t) => t.has_blank_pre(),
+            k => k.is_blank_pre(),
+        })
+    }
     pub fn has_span(&self) -> bool {
         self.rows.iter().flatten().any(|c| c.span > 1)
     }
@@ -114,6 +138,7 @@ impl RTable {
                         attrs: Attrs::none(),
                         kids: match &c.kind {
                             CellKind::Empty => vec![],
+                            CellKind::Blank(k) => vec![Block::Inl(vec![crate::gen::Inline::Raw(BLANKS[*k as usize % BLANKS.len()].to_string())])],
                             CellKind::Short => vec![Block::Inl(vec![txt(&[1], Cls::N)])],
                             CellKind::Long(w) => vec![Block::Inl(vec![txt(w, Cls::N)])],
                             CellKind::Multi(w) => w.iter().map(|n| Block::P(Attrs::none(), vec![txt(&[*n], Cls::N)])).collect(),
@@ -154,7 +179,7 @@ impl RTable {
         }
         fn cell_labels(c: &RCell) -> usize {
             match &c.kind {
-                CellKind::Empty => 0,
+                CellKind::Empty | CellKind::Blank(_) => 0,
                 CellKind::Short | CellKind::Long(_) | CellKind::Wide(_) => 1,
                 CellKind::Multi(w) => w.len(),
                 CellKind::Nested(t) => count(t),
@@ -187,6 +212,7 @@ fn compositions(cols: usize) -> BoxedStrategy<Vec<usize>> {
 fn kind(depth: u32) -> BoxedStrategy<CellKind> {
     let mut opts: Vec<(u32, BoxedStrategy<CellKind>)> = vec![
         (2, Just(CellKind::Empty).boxed()),
+        (1, (0u8..BLANKS.len() as u8).prop_map(CellKind::Blank).boxed()),
         (4, Just(CellKind::Short).boxed()),
         (3, prop::collection::vec(1u8..=6, 2..8).prop_map(CellKind::Long).boxed()),
         (1, prop::collection::vec(1u8..=12, 1..2).prop_map(CellKind::Long).boxed()),
